@@ -70,6 +70,14 @@ CFG = dict(
     ],
     requires={"lzma_outq_read": "M", "lzma_outq_is_readable": "M",
               "lzma_outq_enable_partial_output": "M"},
+    # the decoder never waits for a worker to become idle (re-initialisation joins the threads), so only the
+    # "exit request is never overwritten" half of the rule applies
+    stop_ack=dict(worker_fn="worker_decoder", idle="THR_IDLE", exit="THR_EXIT", handshake=False,
+                  worker_fns=("worker_decoder",)),
+    init_quiesce=dict(init_fn="stream_decoder_mt_init", worker_fns=("worker_decoder", "worker_enable_partial_update"),
+                      calls=("threads_end",),
+                      **{"except": {"mutex": "the mutex itself (initialised once, when the coder is allocated)",
+                                    "cond": "the condition variable itself (initialised once)"}}),
     order_ok={("M", "T")},
     waited={
         (THR, "state"): "T", (THR, "in_filled"): "T", (THR, "partial_update"): "T",
@@ -171,6 +179,14 @@ def run(ck):
     mtcommon.check_wait(ck, prog, CFG, "C07-WAIT")
     ck.floor("C07-WAIT", 8)
     mtcommon.check_end(ck, prog, CFG, "C07-END")
+    mtcommon.check_stop_ack(ck, prog, CFG, "C07-STOPACK")
+    mtcommon.check_init_quiesce(ck, prog, CFG, "C07-QUIESCE")
+    ck.rule("C07-INITCONS", "members that stream_decoder_mt_init (re)initialises on some paths are initialised on "
+                            "every path that returns LZMA_OK")
+    from . import reinit
+    reinit.INIT_EXCEPT[("stream_decoder_mt_init", "mem_direct_mode")] = \
+        "memory of the direct-mode Block decoder, which is deliberately kept across re-initialisation"
+    reinit.check_init_consistency(ck, prog, "C07-INITCONS", files={FILE})
     check_cve(ck, prog)
     ck.rule("C07-ERR", "pending error after drain; quiescent states entered only after the queue was empty")
     evaluate(ck, prog, "C07-ERR", TABLE, floor=3)
